@@ -716,6 +716,10 @@ pub fn run(ctx: &mut Ctx) {
         d!(ctx, N, "generate-owned", "U=Zn", |k| gen_owned::<N, Zn>(k));
         d!(ctx, N, "default-boxed", "U=Zn", |k| default_boxed::<N, Zn>(k));
         d!(ctx, N, "default-boxed", "U=Nd", |k| default_boxed::<N, Nd>(k));
+        d!(ctx, N, "default-boxed", "U=Nb", |k| default_boxed::<N, Nb>(k));
+        d!(ctx, N, "default-owned", "U=Nb", |k| default_owned::<N, Nb>(k));
+        d!(ctx, N, "clone-array", "A=Nb", |k| clone_arr::<N, Nb>(k));
+        d!(ctx, N, "map-owned", "A=Nb,U=Nb", |k| map_owned::<N, Nb, Nb>(k));
         d!(ctx, N, "map-owned", "A=Zn,U=Tr4", |k| map_owned::<N, Zn, Tr<0>>(k));
         d!(ctx, N, "default-owned", "U=Tr4", |k| default_owned::<N, Tr<0>>(k));
         d!(ctx, N, "default-owned", "U=TrZ", |k| default_owned::<N, TrZ>(k));
